@@ -6,7 +6,7 @@ set -u
 export GOFLAGS=-mod=mod GOPROXY=off GOSUMDB=off GOTOOLCHAIN=local
 S="$1"; W="$2"
 cd "$W" || exit 2
-git checkout -q -- . && git clean -fdq
+git checkout -q -- . && git clean -fdq -e seed_out -e SEED_TASK.md
 pkgdir=$(grep -m1 -oE '(semver|module|modfile|zip|sumdb/tlog|sumdb/note|sumdb/dirhash|sumdb/storage|sumdb)/?' "$S/demo_test.go" | head -1 | sed 's:/$::')
 [ -n "${3:-}" ] && pkgdir="$3"
 echo "demo package dir: $pkgdir"
@@ -21,4 +21,4 @@ git stash -q; go test -vet=off -count=1 ./... 2>&1 | grep -E "^(ok|FAIL|--- FAIL
 if diff -q /tmp/sv_base.txt /tmp/sv_patched.txt >/dev/null; then echo "patched: existing suite unchanged"; else echo "patched: existing suite DIFFERS"; diff /tmp/sv_base.txt /tmp/sv_patched.txt; fi
 cp "$S/demo_test.go" "$pkgdir/zz_seed_demo_test.go"
 if go test -vet=off -count=1 ./$pkgdir 2>&1 | grep -E "^--- FAIL" | grep -vq "TestCertificateTransparency\|TestVCS"; then echo "patched: demo FAILS (good)"; else echo "patched: demo does not fail (bad seed)"; fi
-git checkout -q -- . && git clean -fdq
+git checkout -q -- . && git clean -fdq -e seed_out -e SEED_TASK.md
